@@ -185,6 +185,9 @@ def gen_history(rng, n, backed=False):
             continue
         if backed and r["cls"] == "post-into-list":
             continue        # open finding C10:raises:post-into-list:local-file (see directed()); outside the model
+        if backed and r["cls"] in ("list-sm", "list-shell", "list-cd"):
+            # a local-file store lists in directory order: only whole listings are comparable (as multisets)
+            r["query"] = [(k, v) for (k, v) in r["query"] if k not in ("limit", "cursor")]
         out.append(r)
     return out
 
